@@ -92,7 +92,7 @@ def main():
             # one replay per (symptom, first 8) to keep output readable
             k = res.get("symptom")
             seen_sym[k] = seen_sym.get(k, 0) + 1
-            if seen_sym[k] > 5 or shown >= 25:
+            if seen_sym[k] > 2 or shown >= 60:
                 continue
             shown += 1
             path = core.write_replay(module.ID, case, res)
@@ -109,6 +109,8 @@ def main():
             print(f"   symptom={res.get('symptom')} {res.get('detail', '')[:600]}")
         if violations > shown:
             print(f"   ... {violations - shown} further failing cases not written out")
+        if violations:
+            print(f"[{module.ID}] unexplained symptoms: {dict(sorted(seen_sym.items(), key=lambda kv: str(kv[0])))}")
         ev = core.write_evidence(ctx, violations, known_report)
         cov = ev["coverage"]
         print(
